@@ -71,6 +71,7 @@ type c07Cfg struct {
 	MaxSize   uint32 `json:"maxsize,omitempty"`
 	MaxSysFee int64  `json:"maxsysfee,omitempty"`
 	SRH       bool   `json:"srh,omitempty"` // StateRootInHeader
+	MTB       uint32 `json:"mtb,omitempty"` // MaxTraceableBlocks (and MaxValidUntilBlockIncrement = MTB/2)
 	noReplica bool
 }
 
@@ -99,6 +100,10 @@ func c07NewChain(cfg c07Cfg) *c07Chain {
 			c.MaxBlockSystemFee = cfg.MaxSysFee
 		}
 		c.StateRootInHeader = cfg.SRH
+		if cfg.MTB != 0 {
+			c.MaxTraceableBlocks = cfg.MTB
+			c.MaxValidUntilBlockIncrement = max(cfg.MTB/2, 1)
+		}
 	}
 	bc, val := chain.NewSingleWithOptions(t, &chain.Options{Logger: zap.NewNop(), BlockchainConfigHook: hook})
 	e := neotest.NewExecutor(t, bc, val, val)
@@ -416,6 +421,12 @@ func c07Dispatch(co *caseOut, kind string, raw json.RawMessage) error {
 			return err
 		}
 		run(func() { c07RunAdmit(co, in) })
+	case "chist":
+		var in c07HistIn
+		if err := json.Unmarshal(raw, &in); err != nil {
+			return err
+		}
+		run(func() { c07RunHist(co, in) })
 	case "pack":
 		var in c07PackIn
 		if err := json.Unmarshal(raw, &in); err != nil {
@@ -434,6 +445,7 @@ func runC07(args []string) error {
 	co := newCaseOut(cf.out, "Harness.C07", "N",
 		"shape/boundary: every signer shape 1-of-1 .. 8-of-8 and single signature (thorough: sampled up to 200 keys, beyond the verification gas limit too) at the calculated fee -1/0/+1, and 2-3 signer mixes; "+
 			"admit: a funded sender's transaction valid or made invalid in 1-2 chosen respects (system fee cap, script, expiry, not yet valid, blocked signer, size, fee below size*feePerByte+attribute fees, already on chain, named as conflict on chain, wrong signature, wrong witness script, attribute rules, balance, duplicate, pool conflict); "+
+			"chist: 1-3 on-chain transactions naming the same hash in Conflicts, co-signed by the later submitter and/or a stranger, in blocks up to MaxTraceableBlocks+2 apart on a chain with MaxTraceableBlocks 6..12, then the named transaction submitted 0..MaxTraceableBlocks+1 blocks later; "+
 			"pack: pools of 6-30 transactions under small MaxTransactionsPerBlock/MaxBlockSize/MaxBlockSystemFee, with and without StateRootInHeader; "+
 			"non-trivial: multi-signature shape / any boundary / any admit case with a defect / a pack where a limit cut the set; distinct by Coq term")
 	co.shard = 60
@@ -498,6 +510,10 @@ func runC07(args []string) error {
 	// admit
 	for i := 0; i < cf.n/3; i++ {
 		c07Dispatch(co, "admit", enc(c07GenAdmit(r)))
+	}
+	// on-chain conflict records over time
+	for i := 0; i < cf.n/5; i++ {
+		c07Dispatch(co, "chist", enc(c07GenHist(r)))
 	}
 	// pack
 	for i := 0; i < cf.n/10; i++ {
